@@ -50,6 +50,7 @@ def dispatch (prop mode : String) : Option (List String → String) :=
   | "C05", "spec" => some RegistryDriver.spec
   | "C06", "model" => some RegistryDriver.model
   | "C06", "spec" => some RegistryDriver.spec
+  | "C08", "model" => some DirectiveDriver.model2
   | "C11", "model" => some DirectiveDriver.model
   | "C19", "model" => some LevelsDriver.model
   | "C19", "judge" => some LevelsDriver.judge
